@@ -23,9 +23,9 @@ KEY = "os-write-failure-leaks-global-usage"
 INVS = "TypeOK UsedEqSum UsedEqSumQuiescent ZeroAfterRelease ActiveEq LimitRespected SeqWithinLimit"
 
 
-def dm_cfg(nf, t, maxops, fixed=True, sizes="{0, 1, 2}", limits="{2, 3, 1000000}", lim0=3, maxh=2, view=True, invs=INVS):
+def dm_cfg(nf, t, maxops, fixed=True, sizes="{0, 1, 2}", limits="{2, 3, 1000000}", lim0=3, maxh=2, view=True, invs=INVS, mut=False):
     s = (f"CONSTANTS NF = {nf}  T = {t}  SIZES = {sizes}  LIMITS = {limits}  LIM0 = {lim0}  MAXH = {maxh}  "
-         f"MAXOPS = {maxops}  FAULTS = TRUE  FIXED = {'TRUE' if fixed else 'FALSE'}\nSPECIFICATION Spec\n")
+         f"MAXOPS = {maxops}  FAULTS = TRUE  FIXED = {'TRUE' if fixed else 'FALSE'}  MUT = {'TRUE' if mut else 'FALSE'}\nSPECIFICATION Spec\n")
     if view:
         s += "VIEW view\n"
     s += f"INVARIANTS {invs}\nCHECK_DEADLOCK FALSE\n"
@@ -79,6 +79,13 @@ def run(ctx):
     if not ({"UsedEqSum", "UsedEqSumQuiescent", "ZeroAfterRelease"} & set(rp.invariant_violated)):
         sys.stderr.write(rp.out[-3000:])
         raise ToolError("DiskMgr with FIXED=FALSE no longer violates the accounting invariants (specification lost its teeth)")
+    # negative control: check-then-add (load; compare; write; add) lets two writers released together both pass the check
+    cfg = ctx.path("mut.cfg")
+    open(cfg, "w").write(dm_cfg(nf=2, t=2, maxops=4, mut=True, invs="LimitRespected"))
+    rm = tlc(ctx, "proto/DiskMgr", cfg=cfg, workers=2, tag="mut")
+    if "LimitRespected" not in rm.invariant_violated:
+        sys.stderr.write(rm.out[-3000:])
+        raise ToolError("negative control: DiskMgr with MUT=TRUE (check-then-add) no longer violates LimitRespected")
     # ---- 2. sequential histories -> real DiskManager
     gens = [dict(nf=2, t=1, maxops=5, maxh=3)] if ctx.quick else [dict(nf=3, t=1, maxops=5, maxh=3), dict(nf=2, t=1, maxops=6, maxh=3),
                                                                   dict(nf=2, t=1, maxops=5, maxh=3, lim0=2, sizes="{1, 3}", limits="{1, 3, 4}")]
@@ -147,6 +154,7 @@ def run(ctx):
         "exhaustive": True,
         "model_checking_runs": mc,
         "pinned_model_violates": rp.invariant_violated,
+        "mut_check_then_add_refuted_by_tlc": rm.invariant_violated,
         "accounting_histories": {"exhaustive_from_tlc": exhaustive_n, "replayed_total": len(histories), "random_from_tlc_simulate": len(sims),
                                  "replayed_ok": acct["evaluations"], "ops": acct["ops"], "writes_ok": acct["writes_ok"],
                                  "writes_rejected_by_limit": acct["writes_rejected"], "writes_failed_os": acct["writes_oserr"],
